@@ -283,13 +283,14 @@ def system_lines(A, B):
     return out
 
 
-def check_pair(res, drv, orb, A, B, modes=("deterministic",), seed=0, deep=True, label="pair", want_system=False):
+def check_pair(res, drv, orb, A, B, modes=("deterministic",), seed=0, deep=True, label="pair", want_system=False, known_same=None):
     from graphiq.backends import lc_equivalence_check as lce
     from graphiq.backends.stabilizer.functions.local_cliff_equi_check import lc_check
 
     n = len(A)
     inp = {"a": gu.adj_args(A), "b": gu.adj_args(B, "b", with_n=False)}
-    same = orb.same_orbit(A, B) if n <= 7 else None
+    # ground truth: the orbit table (n <= 7); beyond, only what the caller knows by construction (B made from A by local complementations)
+    same = orb.same_orbit(A, B) if n <= 7 else known_same
     lines, meta = [], []
     for mode in modes:
         st, yes, Q, draws = impl_equiv(A, B, mode, seed)
@@ -694,13 +695,77 @@ def random_pairs(res, drv, orb, rng, count, nmin, nmax, modes, deep=True):
         n = rng.randrange(nmin, nmax + 1)
         A = gu.structured_graph(rng, n)
         w = rng.random()
+        known = None
         if w < 0.6:
             B, _ = gu.random_lc_walk(rng, A, rng.randrange(0, 3 * n))
+            known = True
         elif w < 0.8:
             B = gu.permute(A, gu.random_perm(rng, n))
         else:
             B = gu.structured_graph(rng, n)
-        check_pair(res, drv, orb, A, B, modes=modes, seed=rng.randrange(100), deep=deep, label=f"random n={n}", want_system=rng.random() < 0.3)
+        check_pair(res, drv, orb, A, B, modes=modes, seed=rng.randrange(100), deep=deep, label=f"random n={n}", want_system=rng.random() < 0.3,
+                   known_same=known)
+
+
+def connected_large_space(rng, n):
+    """a connected graph whose linear system tends to have a large solution space (many twins / pendant vertices): random tree,
+    distance-hereditary graph (pendant / twin extensions), complete multipartite graph, caterpillar, tree plus a chord; relabelled"""
+    A = np.zeros((n, n), dtype=int)
+    k = rng.randrange(5)
+    if k == 0:
+        for i in range(1, n):
+            j = rng.randrange(i)
+            A[i, j] = A[j, i] = 1
+    elif k == 1:
+        A[0, 1] = A[1, 0] = 1
+        for i in range(2, n):
+            j, kind = rng.randrange(i), rng.randrange(3)
+            if kind == 0:
+                A[i, j] = A[j, i] = 1
+            else:
+                A[i, :i] = A[j, :i]
+                A[:i, i] = A[:i, j]
+                if kind == 1:
+                    A[i, j] = A[j, i] = 1
+    elif k == 2:
+        parts, r = [], n
+        while r > 0:
+            p = rng.randrange(1, r + 1)
+            parts.append(p)
+            r -= p
+        if len(parts) == 1:
+            parts = [1, n - 1]
+        A[:] = 1
+        s = 0
+        for p in parts:
+            A[s:s + p, s:s + p] = 0
+            s += p
+    elif k == 3:
+        spine = rng.randrange(1, max(2, n // 3) + 1)
+        for i in range(1, spine):
+            A[i - 1, i] = A[i, i - 1] = 1
+        for v in range(spine, n):
+            u = rng.randrange(spine)
+            A[u, v] = A[v, u] = 1
+    else:
+        for i in range(1, n):
+            j = rng.randrange(i)
+            A[i, j] = A[j, i] = 1
+        i, j = rng.sample(range(n), 2)
+        A[i, j] = A[j, i] = 1
+    return gu.permute(A, gu.random_perm(rng, n))
+
+
+def shortcut_on_connected(res, drv, orb, rng, count, nmax):
+    """The one hypothesis of the decision theorem for the repaired function (`shortcut_complete_on_connected_statement`): on a
+    CONNECTED graph a `no` of the pair-sum search is right.  Tested on every run: connected graphs with large solution spaces,
+    second graph made by random local complementations (so `yes` is the only right answer, for every n); a `no` is a violation."""
+    for _ in range(count):
+        n = rng.randrange(5, nmax + 1)
+        A = connected_large_space(rng, n)
+        B, _ = gu.random_lc_walk(rng, A, rng.randrange(0, 3 * n))
+        check_pair(res, drv, orb, A, B, modes=("deterministic",), deep=False, label=f"connected n={n}", known_same=True)
+        res.branch(["shortcut-hypothesis:connected-pair"])
 
 
 def check_iso_equal(res, drv, orb, rng, count):
@@ -787,6 +852,7 @@ def run(ctx):
     # random mode and larger graphs
     random_pairs(res, drv, orb, rng, 150 if ctx.quick else 1500, 2, 6, ("deterministic", "random"))
     random_pairs(res, drv, orb, rng, 12 if ctx.quick else 150, 7, 9 if ctx.quick else 12, ("deterministic", "random"))
+    shortcut_on_connected(res, drv, orb, rng, 60 if ctx.quick else 1500, 10 if ctx.quick else 14)
     check_tableau_inputs(res, drv, orb, rng, 150 if ctx.quick else 1500, 5 if ctx.quick else 6)
     check_iso_equal(res, drv, orb, rng, 60 if ctx.quick else 600)
     if not ctx.quick:
